@@ -157,7 +157,8 @@ def run(ctx):
     tzif_ref.selftest()
     cases = tzwalk.zone_cases()
     ctx.explore('tzfile-' + ctx.tier, cases, 'eval_zone', chunk=4, setup_arg=ctx.thorough)
-    k = ctx.pick(3, 4)
+    k = 3          # both tiers: the thorough tier spends its budget on probe density (every second near the edges, every
+                   # minute of the +-2 h window) and on every file as a hand-written class; k=4 with dense probes does not finish in an hour
     pc = tzzones.posix_cases(k)
     ctx.explore('rule-zones-' + ctx.tier, pc, 'eval_zone', chunk=16, setup_arg=ctx.thorough)
     ctx.explore('fixed-' + ctx.tier, tzzones.FIXED, 'eval_zone', chunk=4, setup_arg=ctx.thorough)
